@@ -514,9 +514,82 @@ def empty_containers(res):
                     before = r.serialize()
 
 
+def grouped_columns_case(layout, res=None):
+    """Column declarations the way LibreOffice writes them for a sheet with columns to repeat or for the data table
+    of a chart: inside table:table-header-columns / table:table-columns groups, with repeats. Every column read
+    (single, ranges in every form, generators, from the end) is addressed over *all* the declarations in document
+    order. layout = [[container, [[style, repeat]...]]...], container in {"header", "group", "direct"}"""
+    from odfdo import Element
+
+    T = 'xmlns:table="urn:oasis:names:tc:opendocument:xmlns:table:1.0"'
+    xml = [f'<table:table {T} table:name="G">']
+    styles = []
+    for cont, cols in layout:
+        tag = {"header": "table:table-header-columns", "group": "table:table-columns", "direct": None}[cont]
+        if tag:
+            xml.append(f"<{tag}>")
+        for st, rep in cols:
+            xml.append(f'<table:table-column table:style-name="{st}"' + (f' table:number-columns-repeated="{rep}"' if rep > 1 else "") + "/>")
+            styles += [st] * rep
+        if tag:
+            xml.append(f"</{tag}>")
+    n = len(styles)
+    xml.append(f'<table:table-row><table:table-cell table:number-columns-repeated="{n}"/></table:table-row></table:table>')
+    t = Element.from_tag("".join(xml))
+    out = []
+    before = t.serialize()
+
+    def jud(route, got, exp):
+        if res is not None:
+            res.judge()
+            res.cls(("grouped-columns", route, "+".join(c for c, _ in layout)), True)
+        if got != exp:
+            out.append((f"grouped-columns:{route}", {"got": got, "expected": exp, "layout": layout}))
+
+    try:
+        jud("width", t.width, n)
+        jud("get_columns", [(c.x, c.style) for c in t.get_columns()], list(enumerate(styles)))
+        jud("columns", [(c.x, c.style) for c in t.columns], list(enumerate(styles)))
+        jud("traverse_columns", [(c.x, c.style, c.repeated) for c in t.traverse_columns()], [(i, s_, None) for i, s_ in enumerate(styles)])
+        for x in range(n):
+            c = t.get_column(x)
+            jud("get_column", (c.x, c.style), (x, styles[x]))
+            c = t.get_column(x - n)
+            jud("get_column(negative)", (c.x, c.style), (x, styles[x]))
+        for a in range(n):
+            for b in (a, min(a + 2, n - 1), n - 1):
+                exp = [(i, styles[i]) for i in range(a, b + 1)]
+                jud("traverse_columns(start,end)", [(c.x, c.style) for c in t.traverse_columns(a, b)], exp)
+                jud("get_columns(tuple)", [(c.x, c.style) for c in t.get_columns((a, b))], exp)
+                jud("get_columns(str)", [(c.x, c.style) for c in t.get_columns(f"{TL.alpha(a)}:{TL.alpha(b)}")], exp)
+    except Exception as e:
+        out.append((f"grouped-columns:raised:{type(e).__name__}", {"exc": repr(e), "layout": layout}))
+    if t.serialize() != before:
+        out.append(("grouped-columns:read-changed-table", {"layout": layout}))
+    return out
+
+
+def gen_grouped(rng):
+    layout = []
+    k = 0
+    for cont in rng.choice([["header", "direct"], ["header", "group"], ["group", "direct"], ["header", "group", "direct"], ["direct", "header", "direct"], ["header"], ["group", "group"]]):
+        cols = []
+        for _ in range(rng.randint(1, 3)):
+            cols.append([f"co{k}", rng.choice([1, 1, 2, 3])])
+            k += 1
+        layout.append([cont, cols])
+    return layout
+
+
 def run(ctx, res):
     if ctx.shard == 0:
         empty_containers(res)
+    if ctx.shard == 1 % ctx.nshards:
+        rng = ctx.rng("grouped")
+        for _ in range(25 if ctx.quick else 600):
+            layout = gen_grouped(rng)
+            for m, d in grouped_columns_case(layout, res)[:1]:
+                res.violation(m, d, {"grouped": layout})
     for c in range(CASES[ctx.tier]):
         rng = ctx.rng(c)
         vals = TL.Vals()
@@ -554,6 +627,8 @@ def replay(case):
         r = Res()
         empty_containers(r)
         return [v for v in r.violations if v["case"] == case]
+    if "grouped" in case:
+        return [{"mechanism": m, "detail": d} for m, d in grouped_columns_case(case["grouped"])]
     import random
 
     c = case["case"]
